@@ -133,6 +133,32 @@ func runC10(rowsFile string, seed int64, b *hc.Builder) {
 		for i, x := range pool {
 			hashes[i], _ = callHash(x.v, "ComputeHash")
 		}
+		// the hash is a function of the value alone: a caller that goes on using the returned running hash (adding its own
+		// data to it) must not change what the same value -- or a nil value of the type -- hashes to afterwards
+		probe := []reflect.Value{pool[0].v, pool[len(pool)/2].v}
+		if t := pool[0].v.Type(); t.Kind() == reflect.Ptr && t.Elem().Kind() == reflect.Struct {
+			probe = append(probe, reflect.Zero(t)) // a nil record hashes too (pointer receivers)
+		}
+		for _, pv := range probe {
+			if pv.Kind() != reflect.Ptr {
+				continue
+			}
+			h1, ok := callHash(pv, "ComputeHash")
+			if !ok {
+				continue
+			}
+			before := fmt.Sprint(h1)
+			if ext, ok := callHash(pv, "ComputeHash"); ok {
+				if a, ok := ext.(interface{ AddString(string) }); ok {
+					a.AddString("the caller extends the running hash")
+				}
+			}
+			h3, _ := callHash(pv, "ComputeHash")
+			stats["hash_purity_probes"]++
+			if after := fmt.Sprint(h3); after != before {
+				violation("C10/hash-changes-after-caller-used-it/"+schema, fmt.Sprintf("ComputeHash of the same value (nil: %v): %s, after a caller extended an earlier result: %s", pv.IsNil(), before, after), map[string]any{"schema": schema})
+			}
+		}
 		isCK := false
 		if _, ok := callHash(pool[0].v, "ComputeComplexKeyHash"); ok {
 			isCK = true
